@@ -38,6 +38,16 @@ def cases(rng, tier):
             c2 = "RT P " + dns.pkt_text(p)
             INFO[c2] = ("enc", p)
             out.append(c2)
+            if k % 4 == 0 and any(v[0] == "N" for v in vals):
+                # the same record behind a question and an MX record that share the suffix example.com, written with the
+                # compressing writer: only the RFC 1035 types may have their RDATA names replaced by pointers
+                pc = {"id": k, "opcode": 0, "rcode": 0, "flags": 0x8000, "opt": None,
+                      "qs": [{"name": [b"example", b"com"], "qtype": 255, "qclass": 1, "uni": False}],
+                      "ans": [{"name": [b"mx", b"example", b"com"], "class": 1, "ttl": 1, "cf": False, "rdata": ("T", "MX", [("I", 1), ("N", [b"example", b"com"])])},
+                              {"name": owner, "class": cls, "ttl": ttl, "cf": False, "rdata": ("T", tname, vals)}], "nss": [], "adds": []}
+                c6 = "BUILD C " + dns.pkt_text(pc)
+                INFO[c6] = ("encc", pc, tname, rd)
+                out.append(c6)
             # structural-rule violations
             bad = None
             if tname == "LOC":
@@ -140,6 +150,18 @@ def oracle(case, out):
         ref = dns.enc_packet_ref(p)
         if bytes.fromhex(hx) != ref:
             return "%s: serialised bytes %s differ from the RFC encoding %s" % (p["ans"][0]["rdata"][1], hx[:300], ref.hex()[:300])
+    elif info[0] == "encc":
+        pc, tname, rd = info[1], info[2], info[3]
+        if not out.startswith("OK "):
+            return "compressed serialising failed: %r" % out[:200]
+        msg = bytes.fromhex(out[3:].split()[0])
+        w = dns.walk(msg)
+        if w is None or len(w["secs"][0]) != 2:
+            return "%s: the compressed output is not a well-framed message" % tname
+        r = w["secs"][0][1]
+        got = msg[r["rdata_at"]:r["rdata_at"] + r["rdlen"]]
+        if tname not in ("NS", "MD", "MF", "CNAME", "SOA", "MB", "MG", "MR", "PTR", "MINFO", "MX", "RP", "AFSDB", "RT", "RouteThrough", "NSAP_PTR") and got != rd:
+            return "%s: RDATA written by the compressing writer %s differs from the RFC encoding %s (names of this type are never compressed)" % (tname, got.hex()[:200], rd.hex()[:200])
     elif info[0] == "rej":
         if not out.startswith("ERR"):
             return "%s with a broken %s was accepted: %r" % (info[1], info[2], out[:300])
